@@ -526,7 +526,7 @@ def run_check(modname, tier, seed, replay=None, jobs=None):
     sys.path.insert(0, os.path.join(VERIF, "py"))
     mod = __import__("props." + modname, fromlist=["x"])
     prop = mod.PROPERTY
-    t0 = time.time()
+    t0 = time.monotonic()
     try:
         for fl in getattr(mod, "FLAVORS", ["asan"]):
             build(fl)
@@ -584,7 +584,7 @@ def run_check(modname, tier, seed, replay=None, jobs=None):
         print("VIOLATION property=%s replay=%s" % (prop, path))
         print("  signature: %s" % sig)
         print("  what: %s" % vs[0]["what"][:400])
-    wall = time.time() - t0
+    wall = time.monotonic() - t0
     ev = {
         "property_id": prop, "tier": tier, "seed": seed, "level": getattr(mod, "LEVEL", "exploration"),
         "coverage": {
